@@ -173,6 +173,17 @@ Definition is_response_to (m : cmsg) (sent : val) (body_len : option N) : bool :
       && match body_len with Some n => u b 8 4 =? n | None => true end
   | _ => false
   end.
+(* the flags word of a response: version 1 plus REPLY and nothing else - in particular not the request's NEED_REPLY *)
+Definition response_flags_exact (sent : val) : bool :=
+  match sent with
+  | VL [VH h; _] => let b := hex_bytes h in Nat.leb 12 (List.length b) && (u b 4 4 =? 5)
+  | _ => false
+  end.
+Definition response_flags_plausible (sent : val) : bool :=
+  match sent with
+  | VL [VH h; _] => let b := hex_bytes h in Nat.leb 12 (List.length b) && hasb (u b 4 4) 4 && (N.land (u b 4 4) 3 =? 1)
+  | _ => false
+  end.
 Definition ack_value (sent : val) : N :=
   match sent with VL [VH h; _] => u (hex_bytes h) 12 8 | _ => 99 end.
 (* C01: the answer to GET_CONFIG is the requested window - same offset, the requested size, that many payload bytes -
@@ -245,7 +256,10 @@ Fixpoint walk (cfg_features : N) (s : nstate) (msgs : list cmsg) (results : list
                              and whatever was negotiated before *)
                           and_then (negb (m_code m =? 15) || hasb (ack_value x) PF_REPLY_ACK) 7
                             (and_then (negb (m_code m =? 24) || config_reply_ok m x) 1
-                               (and_then (is_response_to m x None) 4 (walk cfg_features s' ms rs cs xs)))
+                               (* a reply that is one (REPLY set, version 1) but carries further flag bits is wrongly
+                                  encoded (C01) as much as it breaks the reply discipline (C04) *)
+                               (and_then (response_flags_exact x || negb (response_flags_plausible x)) 14
+                                  (and_then (is_response_to m x None) 4 (walk cfg_features s' ms rs cs xs))))
                       | [] => 4
                       end
                     else walk cfg_features s' ms rs cs sent
@@ -255,7 +269,8 @@ Fixpoint walk (cfg_features : N) (s : nstate) (msgs : list cmsg) (results : list
                         (* the acknowledgement is zero exactly when the handler succeeded: C03 (the frontend's call succeeds
                            only on a zero status) as much as C04 *)
                         and_then (Bool.eqb (ack_value x =? 0) (String.eqb r "ok")) 34
-                          (and_then (is_response_to m x (Some 8)) 4 (walk cfg_features s' ms rs cs xs))
+                          (and_then (response_flags_exact x || negb (response_flags_plausible x)) 14
+                             (and_then (is_response_to m x (Some 8)) 4 (walk cfg_features s' ms rs cs xs)))
                     | [] => 4
                     end
                   else walk cfg_features s' ms rs cs sent)))
@@ -321,6 +336,7 @@ Definition be_spec (args : list val) : val :=
       if negb c05 then VS "false:C05"
       else if negb c09 then VS "false:C09"
       else if c0407 =? 34 then VS "false:C03,C04"
+      else if c0407 =? 14 then VS "false:C01,C04"
       else if c0407 =? 1 then VS "false:C01"
       else if c0407 =? 4 then VS "false:C04"
       else if c0407 =? 7 then VS "false:C07"
